@@ -112,6 +112,9 @@ R = {
  'X-strip-after-gather': (Z, [("    sorted_zones = flatten_zones[sorted_indices]\n\n    values_shape", "    sorted_zones = flatten_zones[sorted_indices]\n    sorted_zones = sorted_zones[np.isfinite(sorted_zones)]\n\n    values_shape"),
                                ("    sorted_indices = sorted_indices[np.isfinite(flatten_zones[sorted_indices])]\n", "")]),
  'X-pct-mul-first': (Z, [("crosstab_dict[cat] / crosstab_dict[TOTAL_COUNT] * 100", "crosstab_dict[cat] * 100 / crosstab_dict[TOTAL_COUNT]")]),
+ 'data-locals-after-validate': (Z, [("    result = mapper(values)(\n        zones.data, values.data, zone_ids,", "    zones_arr = zones.data\n    values_arr = values.data\n    result = mapper(values)(\n        zones_arr, values_arr, zone_ids,")]),
+ 'X-data-hoisted-before-validate': (Z, [("    validate_arrays(zones, values)\n\n    if not (\n        issubclass(zones.data.dtype.type, np.integer)", "    values_arr = values.data\n    validate_arrays(zones, values)\n\n    if not (\n        issubclass(zones.data.dtype.type, np.integer)"),
+                                       ("    result = mapper(values)(\n        zones.data, values.data, zone_ids,", "    result = mapper(values)(\n        zones.data, values_arr, zone_ids,")]),
  'X-rechunk-first-only': (U, [("for i in range(1, len(arrays)):\n            if first_array.chunks", "for i in range(1, 2):\n            if first_array.chunks")]),
 }
 
